@@ -104,6 +104,11 @@ Proof.
     conj (src_ts_rates_eq n A r1 r2 dt) (conj (src_ts_tabulate_eq J1 J2 ls1 li1 ls2 li2 n) (src_setup_ts_rates_eq J1 J2 ls1 li1 ls2 li2 n dt))).
 Qed.
 
+Theorem C10_source_wrappers : forall J ls li n dt,
+  src_setup_ts_rates_self J ls li n dt = setup_ts_rates J J ls li ls li n dt /\
+  src_ts_visibilities_identical J ls li n = setup_ts_visibilities_identical J ls li n.
+Proof. exact (fun J ls li n dt => conj (src_setup_ts_rates_self_eq J ls li n dt) (src_ts_visibilities_identical_eq J ls li n)). Qed.
+
 (* ---- non-vacuity *)
 Example C10_nonvacuous_norm : jsi_norm ROps (2 * 2) (fun _ => (1, 0)) <> 0.
 Proof. unfold jsi_norm, cnorm2. cbn. lra. Qed.
@@ -133,5 +138,6 @@ Print Assumptions C10_range_general.
 Print Assumptions C10_range_partial.
 Print Assumptions C10_range_same_axes.
 Print Assumptions C10_source_is_model.
+Print Assumptions C10_source_wrappers.
 Print Assumptions C10_exec_twin.
 Print Assumptions C10_exec_twin_purity.
